@@ -528,7 +528,8 @@ def r22_bound_kind(ctx):
                     ok = mn == "-99" and mx == "99"
                     why = "zone hours lie in -99..99"
                 elif name == "TimeZone minutes":
-                    raw = {k.arg: U(k.value) for k in c.keywords if k.arg}
+                    raw = {k_: U(v_) for k_, v_ in
+                           ctx.bound_args(f, c).items()}
                     ok = "min_val" in raw and "max_val" in raw and \
                         _sign_window(f, raw["min_val"], raw["max_val"])
                     key = ctx.fkey(f, None, "bounds:%s:%s" % (
@@ -589,7 +590,7 @@ def r22_bound_kind(ctx):
     for c in walk_no_nested(z.node):
         if isinstance(c, ast.Call) and U(c.func) == "_bounds_checker" and \
                 len(c.args) >= 2 and "minutes" in U(c.args[1]):
-            kw = {k.arg: U(k.value) for k in c.keywords}
+            kw = {k_: U(v_) for k_, v_ in ctx.bound_args(z, c).items()}
             if "min_val" in kw and "max_val" in kw:
                 three = _sign_window(z, kw["min_val"], kw["max_val"])
     rep.check(three, rule, ctx.fkey(z, None, "sign-window"), z.loc(),
